@@ -76,6 +76,17 @@ def run(idx: Index, rep: Report, tier: str) -> None:
         ok = bool(writers) and all(m.name in ("create_node", "__init__") for m, _ in writers)
         rep.check(ok, rule1, f"ExpressionManager.{fld} is written only by create_node (and __init__)", em_cls.loc(), construct="; ".join(sorted({m.name for m, _ in writers})), detail="" if ok else "the hash-consing table / id counter is modified elsewhere", function=em_cls.qualname)
     # table hit returned first; id consumed once per new node
+    from ..roles import assigned_from_call, with_roles
+
+    roles = {}
+    for name, callee in assigned_from_call(cn.node, "FNodeContent").items():
+        roles[name] = "content"
+    for a in walk_no_nested(cn.node):
+        if isinstance(a, ast.Assign) and isinstance(a.targets[0], ast.Name) and isinstance(a.value, ast.Call) and call_name(a.value) == "get" and norm(a.value.func.value) == "self.expressions":
+            roles[a.targets[0].id] = "res"
+    if "content" not in roles.values():
+        raise AnalysisError("anchor vanished: create_node no longer builds an FNodeContent key")
+    cn = with_roles(cn, roles)
     cfg = cfg_of(cn)
     news = [n for n in cfg.nodes if n.ast is not None and any(isinstance(c, ast.Call) and norm(c.func).split(".")[-1] == "FNode" for c in ast.walk(n.ast))]
     for n in news:
